@@ -43,6 +43,8 @@ def pool(r):
         ('oc', p.obj([['a', interp.vflt(2)]])), ('od', p.obj([['a', interp.vflt(1)], ['b', interp.vflt(0)]])),
         # the same key set inserted in the same NON-alphabetical order, values pointing opposite ways (the order sorts the keys first)
         ('oe', p.obj([['b', interp.vflt(1)], ['a', interp.vflt(2)]])), ('of', p.obj([['b', interp.vflt(2)], ['a', interp.vflt(1)]])),
+        # a datetime with a sub-millisecond part (datetime - datetime is the WHOLE-millisecond difference)
+        ('d4', ['date', str(63_842_000_000_000_400)]),
     ]
     return vals
 
@@ -125,6 +127,15 @@ def run(tier):
         for na, _ in vals:
             cases.append({'expr_text': f'{op}{na}', 'globals': {na: gspec[na]}, 'builtins': True})
             meta.append(('unary', op, na, None))
+    # ---- (1b) the keyword literals null / true / false are not variables: bindings of those names (host globals, locals) never change them
+    kw_globals = {'true': interp.vflt(0.0), 'false': interp.vflt(1.0), 'null': interp.vflt(5.0), 'one': interp.vflt(1.0)}
+    for text, want in (('true', True), ('false', False), ('null', None), ('if(true, 1, 2)', 1.0), ('if(false, 1, 2)', 2.0), ('false || 7', 7.0),
+                       ('true && 8', 8.0), ('null == null', True), ('!true', False), ('one + true', None), ('null != one', True),
+                       ('true == one', False), ('if(null, 1, 2)', 2.0)):
+        for where in ('globals', 'locals'):
+            cases.append({'expr_text': text, 'globals': kw_globals if where == 'globals' else {'one': interp.vflt(1.0)},
+                          'locals': None if where == 'globals' else {k: v for k, v in kw_globals.items() if k != 'one'}, 'builtins': True})
+            meta.append(('keyword', text, where, want))
     # ---- (2) effect trees through execute_script
     n_trees = 700 if tier == 'quick' else 8000
     for _ in range(n_trees):
@@ -136,7 +147,7 @@ def run(tier):
         meta.append(('tree', None, None, None))
     impl = core.run_impl('run_script', cases)
     # canonical expressions of the matrix texts (the implementation's own parse)
-    matrix_idx = [i for i, m in enumerate(meta) if m[0] != 'tree']
+    matrix_idx = [i for i, m in enumerate(meta) if m[0] not in ('tree', 'keyword')]
     parsed = core.run_impl('parse_expr', [cases[i]['expr_text'] for i in matrix_idx])
     canon = {i: p.get('ok') for i, p in zip(matrix_idx, parsed)}
 
@@ -150,6 +161,11 @@ def run(tier):
         src = cases[i].get('expr_text') or cases[i]['text']
         if 'host' in res:
             chk.oracle_fail.append({'class': 'host-exception', 'source': src, 'got': res})
+            continue
+        if m[0] == 'keyword':
+            got = interp.plain_of_tree(res['res']) if 'res' in res else ('no value', res.get('rt'))
+            if not (type(got) is type(m[3]) and got == m[3]):
+                chk.oracle_fail.append({'class': 'keyword-literal-shadowed-by-a-binding', 'source': src, 'bound_in': m[2], 'expected': m[3], 'got': res.get('res') or res.get('rt')})
             continue
         try:
             if m[0] == 'tree':
